@@ -334,6 +334,7 @@ def fbg_rule(chk, db):
 
 META_EXTRA = 'FB (library-local constant-evaluation helpers of exactly specified functions, evaluated over a finite floating-point class domain against the closed form); FBG (the vendored gcem implementation that constant evaluation uses where the run-time path is a builtin, evaluated from its own source over the same domain widened by tiny, huge and non-finite classes); SHIFT (shift counts below the promoted width of the left operand, symbolic type width).'
 META = (META[0] + " " + META_EXTRA, META[1])
+META = (META[0] + ' RAWDIFF (integer midpoint combines its arguments only in the unsigned type).', META[1])
 
 
 def run(chk, tier):
